@@ -25,9 +25,17 @@ NOT_SHOWN = {
         "scipy ellipk / ellipe against their cel0 forms). Proved: cylinder_batch_rowwise (every carrier, IEEE double included: row i of the batch = the one-row function with cel0 or "
         "celv's per-entry loop according to the two sub-batch COUNTS and nothing else of the other rows), cylinder_batch_rowwise_small / _below_threshold (fewer than 10 rows reaching "
         "each kernel: row-wise without exception, bit for bit), cylinder_batch_rowwise_off_band (exact arithmetic: row-wise for every batch if no cel modulus of a row is 0 or within "
-        "1e-6 of 1), cylinder_batch_perm, cylinder_row_depends_on_counts_only. NOT true and therefore not shown: row-wise across the threshold for rows with a modulus in the band — "
+        "1e-6 of 1), cylinder_batch_perm, cylinder_row_depends_on_counts_only (audit2: by itself a congruence — celPath reads its count only through count < 10; its batch-level form is "
+        "cylinder_batch_entry_same_side: the same row in two returning calls on the same side of both thresholds gets the same value). The row-wise / perm / same-side statements are equations of Option values or are "
+        "conditional on the call returning; that bhjmCylinderBatch returns in exact arithmetic is shown for the example rows only (no general termination theorem for the batch; the celv part needs kc != 0 for every "
+        "cel entry a row contributes, Props/C15 celv_terminates; at IEEE double it is observed on the rows of the stream only). NOT true and therefore not shown: row-wise across the threshold for rows with a modulus in the band — "
         "observers within ~5e-7 radii of the axis (axial kernel) or farther than ~1400 radii (diametral kernel): cel_band_exact gives the two values (return expression before / after "
-        "the forced first pass, any p, c, s), cel_band_difference_le bounds their difference for the first-kind integral (p = c = s = 1) by (1-k)^2/15 <= 6.7e-14 relative; for general "
+        "the forced first pass, any p, c, s), cel_band_difference_le bounds their difference for the first-kind integral (p = c = s = 1) by (1-k)^2/15 <= 6.7e-14 relative "
+        "(audit2: that entry shape is NOT one the Cylinder kernels pass to cel — they pass (k, 1, 1, -1) and (k, gamma^2, 1, gamma) in the axial and (k, 1 - argc, 1, 1), argc != 0, in the diametral "
+        "kernel; celv_ne_cel0_in_band and cel_band_difference_le are therefore statements about the dispatcher cel, not about a Cylinder row; for the shape (k, 1, 1, -1) of the axial Br "
+        "cel_band_axial_entry gives both values in closed form, that they differ for k != 1, and the bound (1-k)^2/10 <= 1e-13 relative — confirmed on the real cel: 2.35e-14 at k = 1 + 5e-7; "
+        "for the other two entry shapes no bound is proved, and no theorem shows that Br, Bz or a Cylinder ROW differs between the two sides of the threshold or by how much: at the level of "
+        "BHJM_magnet_cylinder the band is neither proved row-wise nor refuted in exact arithmetic, 'NOT true' above rests on the 18 differing real-code rows of the cylbatch stream, i.e. on IEEE double); for general "
         "p, c, s no bound is proved — measured through BHJM_magnet_cylinder on the real code <= 1.8e-12 relative (cylbatch rows: rows that differ between the batch and the single call, "
         "all in the band; off the band the real batch row is bit-identical to the single call, checked on every cylbatch row). scipy's ellipk / ellipe inside the batch are modelled "
         "per row through cel0 (they are elementwise ufuncs). "
@@ -35,7 +43,9 @@ NOT_SHOWN = {
         "entries get the same number N of passes, N the first count at which all meet the exit test) and cel_iterv_passes_partial (exact arithmetic, rows of the loop's shape such as "
         "the Circle kernel's: an entry that has met its test keeps meeting it, so N is the LARGEST of the entries' own pass counts, each entry alone would stop after its own N_i <= N, "
         "and N is attained by the slowest entry, which gets exactly its own value); cel_iterv_extra_pass_at_fixed_point (a pass does not change the return expression at the fixed "
-        "point 2 sqrt(kk) = em). NOT shown: a bound on how much the N - N_i extra passes change an entry's value before the fixed point (it contracts quadratically with em - 2 sqrt(kk); "
+        "point 2 sqrt(kk) = em; audit2: under the loop's shape this hypothesis says g = qc, a state the iteration reaches only if the entry STARTS there — so it covers an entry that is exactly converged on entry "
+        "and waits for slower ones, and no extra pass of an entry that is still converging); cel_iter_dispatch_is_iterv_partial (audit2): the function the driver and the celiter rows run, celIterDispatch = cel_iter "
+        "with its n < 15 pre-loop, equals celIterV on rows of the loop's shape for every batch length and fuel (exact arithmetic), which is what makes the three celIterV theorems statements about the driver-run function. NOT shown: a bound on how much the N - N_i extra passes change an entry's value before the fixed point (it contracts quadratically with em - 2 sqrt(kk); "
         "measured on Circle getB <= 6e-16 relative), i.e. entry i of cel_iterv(batch) = cel_iter0(batch[i]) is false in exact arithmetic and no tolerance statement replaces it. "
         "el3 / el3v (n < 10 switch, CylinderSegment): only the control-flow skeleton of el3v's main loop is modelled (MaskedLoop: body on mask10, test on all "
         "entries, post on mask11, mask10 = mask11) and proved row-wise for abstract per-entry statements (el3v_loop_rowwise_partial; that every statement under a mask acts on the "
@@ -43,7 +53,11 @@ NOT_SHOWN = {
         "of the kern stream (real el3 / el3v on batches of 1..40 entries, relative 1e-12, largest seen 3e-15; el3v(batch)[i] bit-identical to el3v([batch[i]]) on the real code); "
         "for x < 0 in the logarithmic branch (bo false, bk false) el30 raises ValueError (int(nan)) where el3v returns NaN (known finding el3-nan-to-int; public API: "
         "1-9 vs >= 10 observers). CylinderSegment's all-on-surface early return: element-vs-single-call oracle only",
-        "np.squeeze / np.expand_dims / reshape semantics are assumed as modelled (shape list + unchanged row-major data), exercised by the stream"],
+        "np.squeeze / np.expand_dims / reshape semantics are assumed as modelled (shape list + unchanged row-major data), exercised by the stream",
+        "short paths (audit2): the pipeline model the driver runs reads clampGet on the UNTILED paths; short_paths_edge_padded / level1_reads_tiled_paths prove that this is indexing the tiled arrays of the tiling "
+        "model tilePath (Model/Level2State.lean, C08) — a model-to-model link; tilePath is not run by the driver, that np.concatenate((path, np.tile(path[-1], ...))) is tilePath is read off the source, and the tie to the "
+        "code is the level2 / level2f streams (cases_with_short_multi_step_path, distinguishes_cyclic_tiling). cyclic_tiling_differs compares the two index functions xs[m % len] and xs[min m (len-1)] on [a, b] at "
+        "index 2, not two pipelines; short_path_stays_at_last_pose / short_path_source_evaluated_at_last_pose unfold clampGet (for an empty path both sides are none / 0)"],
 }["06"]
 
 
